@@ -36,6 +36,8 @@ here (the first thirty were written before most checks existed, so "missed" coul
 * C07-m5 (a "cast once" branch for ciphertext bytes held in a wider dtype) - C07 feeds the byte values in uint16/int32/int64 arrays; C15-m5 (popcount through the byte view of the memory) - wide HammingWeight on Fortran-ordered, transposed and strided views; C19-m5 (index arithmetic in the index dtype) - extract_around_indexes with index arrays of every integer dtype at the dtype edge.  These three led to the layout/dtype differential oracles now in C03-C06, C15, C18, C19 ("the memory layout and the integer width of an array are not part of its value").
 * C02-m6 (Container batch cursor kept when an iteration is abandoned) - histories with raised / peeked / half-consumed batch loops on the same Container; C13-m5 (edges cast to int64 for integer traces) - half-integer edges with integer samples, float32 linspace edges and automatic binning; C16-m5 (MIA automatic window kept from a refused first batch) - MIA systems with automatic bin edges; C17-m5 (Monobit pre-sets two partitions) - Monobit(3) attacks with automatic classes.
 * C03-m6 (DPA column sum taken in the storage dtype) - float16 values whose sums leave float16; C04-m6 (LUT bounds guard drops negative values) - declared negative class values on int8/int16/int32 words; C18-m6 (`frame_1 or frame_2`) - single-point frames given as int, 0 included, for the time-frequency combinations; C19-m6 (eps added to the Pearson denominator) - unit-scale invariance of correlation and bcdc (same signals scaled by 2^-30).
+* C05-m6 (a one-entry round-key memo that keeps a *reference* to the caller's key array) - C05, C06 and C10 now explore every call sequence of depth <= 4 (quick) / 5 (thorough) over {calls, in-place rewrites of the reused block / key arrays} ("the cipher has no memory"); C09-m5 (slice frames resolved once, `slice(None, None, -1)` becomes empty) - every frame spelling of C02 also goes through `TTestContainer`; C11-m5 (template kernel 2 sums classes in the storage dtype) - a float32 pool that fills the 24-bit mantissa, so that any sum taken in float32 breaks bit-identity at float64 precision; C13-m6 (`numpy.allclose` with its absolute default tolerance in the equal-spacing test) - the edge-validation menu is run at unit scales 1e-12 .. 2^40; C17-m6 (DPA `compute()` normalises its accumulator in place) - every other C17 configuration sets a convergence step (C01 reported it as well).
+* C01-m7 (`compute()` memoised and handed out by reference) - the explorer's compute event now scribbles on the returned array ("the result belongs to the caller"); C06-m7 (round-key memo keyed on the key bytes but not on their shape) - consecutive calls giving the same bytes under every pair of legal shapes; C08-m7 (`finally: _final_compute()` in run()) - histories with a refused run() in the middle; C12-m6 (strict bound on the largest table entry) - class values 65535, 65536 and 131071 on 32-bit words.
 * C15-m3 and C13-m4 first turned into exit 2 (an unguarded call / memory exhaustion in my harness) - now VIOLATIONs.
 
 ''' % (n, WAVES, MISSED)
